@@ -148,4 +148,7 @@ for f in ('_reg', '_constants', '_globals', '_routines', '_call_stack', '_keep_r
     c.ensures('fresh' + f, 'same_state(self.%s, _fresh.%s)' % (f, f))
 c.ensures('fresh-evaluation-stack', 'same_state(self._vm_math._eval_stack, _fresh._vm_math._eval_stack)')
 c.ensures('no-pending-output-carried-over', 'len(self._vm_io._unnamed) == 0')
+# reset == construct also in what is SHARED: whether the call stack looks at the machine's own constants table or at a table of its
+# own must not depend on what the previous run left in the table (a `define` would be visible from the second run on only)
+c.ensures('same-sharing-as-a-fresh-machine', 'iff(self._call_stack._top.constants is self._constants, _fresh._call_stack._top.constants is _fresh._constants)')
 c.ensures('sub-machines-share-the-fresh-state', 'self._vm_io._reg is self._reg and self._vm_math._reg is self._reg and self._vm_io._call_stack is self._call_stack')
